@@ -8,9 +8,9 @@ CONSTANTS V, EMIN, EMAX, WSET, WD, DSET, EXTV
 
 NoGraph == [edges |-> <<>>, mass |-> <<>>, w |-> <<>>, wd |-> 2, ext |-> {}, D |-> 0]
 NoTab   == [l |-> <<0>>, s |-> <<FALSE>>, w |-> <<2>>, j |-> <<One>>]
-Cfgs    == [stab : BOOLEAN, debug : BOOLEAN, meta : {FALSE}]
+Cfgs    == [stab : BOOLEAN, debug : BOOLEAN, meta : {FALSE}, massargs : {{}}, loopedges : {{}}]
 
-MCInit == InitCall(NoGraph, NoTab, [stab |-> FALSE, debug |-> FALSE, meta |-> FALSE]) /\ pc = "sector"
+MCInit == InitCall(NoGraph, NoTab, [stab |-> FALSE, debug |-> FALSE, meta |-> FALSE, massargs |-> {}, loopedges |-> {}]) /\ pc = "sector"
 
 \* picking happens from the dummy call state (E = 0): first the skeleton, then the decorations
 PickSkeleton ==
